@@ -8,7 +8,7 @@ from typing import Dict, List, Set
 from ..astutil import calls_in, const_str, dotted, lexical_guards, name_stores, own_exprs, raises_of, unparse, walk_local, walk_stmts
 from ..report import Registry, chain, sub
 from ._helpers_rules_d import call_nodes, callee_is, const_is, guard_atom_set, qualname
-from ._helpers_rob_g2 import normal_form
+from ._helpers_rob_g2 import calls_of_name, normal_form, owners_through_helpers
 
 R = Registry(
     "C47",
@@ -291,8 +291,10 @@ def r3(ctx):
                         pm = pm or m.parents()
                         found[f"{m.relpath}::{qualname(pm, n)}"] = f"{m.path}:{n.lineno}"
     for fk, loc in sorted(found.items()):
-        ctx.check(fk in AUTOFLUSH_OPTION_OWNERS, f"{fk}:sets-autoflush-option", "the per-statement autoflush option is switched by a function that is not an enumerated owner",
-                  AUTOFLUSH_OPTION_OWNERS.get(fk, ""), loc)
+        # (a private helper all of whose call sites lie in enumerated owners acts for them)
+        acts_for = owners_through_helpers(ctx.index, fk, AUTOFLUSH_OPTION_OWNERS)
+        ctx.check(bool(acts_for), f"{fk}:sets-autoflush-option", "the per-statement autoflush option is switched by a function that is not an enumerated owner",
+                  AUTOFLUSH_OPTION_OWNERS.get(fk, "") or ("helper of " + ", ".join(a.split("::")[1] for a in acts_for or ())), loc)
 
 
 @R.rule("C47-R4", floor=3, template="T-PATH",
@@ -454,6 +456,30 @@ def _autoflush_off_sites(ctx):
     return out
 
 
+def _site_reasons(ctx, pm, fn, site, cond):
+    """whitelisted reasons implied by the conditions under which `site` (a node inside function `fn`) is reached"""
+    g = ctx.cfg(fn)
+    st = site
+    while st is not None and not isinstance(st, ast.stmt):
+        st = pm.get(st)
+    nodes = g.nodes_for(st) if st is not None else []
+    if not nodes:
+        return None
+    guards = list(g.edge_guards(nodes[0])) + list(lexical_guards(pm, site, stop=st))
+    if cond is not None:
+        guards.append((cond, True))
+    reasons = set()
+    for t, pol in guards:
+        r = _implied_reasons(fn, t, pol, g)
+        if r:
+            reasons |= r
+    if not reasons:
+        af = call_nodes(g, lambda c: callee_is(c, "_autoflush"))
+        if af and g.always_preceded(nodes[0], af) is None:
+            reasons.add("just-autoflushed")
+    return reasons
+
+
 @R.rule("C47-R5", floor=7, template="T-GUARD",
         desc="every site that runs or prepares a statement with autoflush switched off ({'autoflush'|'_autoflush': False}, "
              ".autoflush(False), execution_options(autoflush=False), no_autoflush=<x>) does so under a condition that implies one "
@@ -487,6 +513,20 @@ def r5(ctx):
             af = call_nodes(g, lambda c: callee_is(c, "_autoflush"))
             if af and g.always_preceded(nodes[0], af) is None:
                 reasons.add("just-autoflushed")
+        if not reasons:
+            # an extracted helper that only builds the option (`return opts + {"_autoflush": False}`): the reason is the
+            # condition under which it is called -- every call site must have one
+            sites = calls_of_name(ctx.index, fn.name) if fn.name.startswith("_") and not fn.name.endswith("__") else None
+            via = set()
+            for ok_, cm, call in sites or ():
+                cpm = cm.parents()
+                cfn = _enclosing_function(cpm, call)
+                r = _site_reasons(ctx, cpm, cfn, call, None) if cfn is not None and cfn is not fn else None
+                if not r:
+                    via = set()
+                    break
+                via |= r
+            reasons = via
         shown = " and ".join(("" if pol else "not ") + "(" + unparse(_resolve_local(fn, t)) + ")" for t, pol in guards) or "unconditionally"
         ctx.check(bool(reasons), key,
                   f"autoflush is switched off for this statement under `{shown}`, which does not imply any whitelisted reason "
@@ -838,3 +878,15 @@ R.mutant("core-autoflush-helper-only-with-pending-objects", SESSION, chain(
 R.mutant("benign-merge-autoflush-inverted-if", SESSION, sub(
     "            self._flush_warning(\"Session.merge()\")\n\n        if load:\n            # flush current contents if we expect to load data\n            self._autoflush()\n",
     "            self._flush_warning(\"Session.merge()\")\n\n        if not load:\n            pass\n        else:\n            self._autoflush()\n"), None)
+
+_PK_OFF = "    if no_autoflush:\n        load_options += {\"_autoflush\": False}\n"
+_PK_DEF = "def _load_on_pk_identity(\n"
+_OFF_HELPER = "def _without_autoflush(load_options):\n    return load_options + {\"_autoflush\": False}\n\n\n"
+R.mutant("benign-pk-load-autoflush-off-through-helper", LOADING, chain(
+    sub(_PK_OFF, "    if no_autoflush:\n        load_options = _without_autoflush(load_options)\n"),
+    sub(_PK_DEF, _OFF_HELPER + _PK_DEF),
+), None)
+R.mutant("pk-load-autoflush-off-helper-called-unconditionally", LOADING, chain(
+    sub(_PK_OFF, "    load_options = _without_autoflush(load_options)\n"),
+    sub(_PK_DEF, _OFF_HELPER + _PK_DEF),
+), "C47-R5")
